@@ -303,6 +303,14 @@ def ev(node, env):
             except (IndexError, KeyError, ValueError):
                 raise Unsupported('format')
         raise Unsupported('format of %r' % (a_,))
+    if isinstance(node, ast.Call) and isinstance(node.func, ast.Attribute) and node.func.attr in ('rstrip', 'lstrip', 'strip') and not node.keywords and len(node.args) <= 1:
+        b = ev(node.func.value, env)
+        a_ = [ev(x, env) for x in node.args]
+        if isinstance(b, (bytes, bytearray)) and (not a_ or isinstance(a_[0], (bytes, bytearray))):
+            return getattr(b, node.func.attr)(*a_)        # on the interpreter's own byte strings / text
+        if isinstance(b, str) and (not a_ or isinstance(a_[0], str)):
+            return getattr(b, node.func.attr)(*a_)
+        raise Unsupported('%s of %s' % (node.func.attr, type(b).__name__))
     if isinstance(node, ast.Call) and isinstance(node.func, ast.Attribute) and node.func.attr in ('items', 'keys', 'values', 'get') and not node.keywords:
         b = ev(node.func.value, env)
         if isinstance(b, dict):
